@@ -594,4 +594,150 @@ theorem dist_uniform_roundtrip (a b : Rat) (ha : TokOK (intStr a) a) (hb : TokOK
 example : TokOK (intStr 12) 12 ∧ TokOK (intStr 72) 72 ∧ truncRat 12 = 12 ∧ truncRat 72 = 72 := by
   refine ⟨⟨?_, ?_, ?_, ?_, ?_⟩, ⟨?_, ?_, ?_, ?_, ?_⟩, ?_, ?_⟩ <;> decide +kernel
 
+/-! ## the side condition holds for every plain integer literal -/
+
+theorem takeNumber_digits (ds : Str) (hd : ∀ c ∈ ds, c.isDigit = true) (stop : Char) (hstop : isNumChar stop = false) (hs2 : (stop == '+' || stop == '-') = false) (acc : Str) :
+    takeNumber acc (ds ++ [stop]) = (acc.reverse ++ ds, [stop]) := by
+  induction ds generalizing acc with
+  | nil =>
+    simp only [List.nil_append, List.append_nil]
+    rw [takeNumber_cons]
+    have : takeCond stop acc = false := by unfold takeCond; simp [hstop, hs2]
+    simp [this]
+  | cons c cs ih =>
+    have hc := hd c (by simp)
+    simp only [List.cons_append]
+    rw [takeNumber_cons]
+    have : takeCond c acc = true := by unfold takeCond isNumChar; simp [hc]
+    simp only [this, if_true]
+    rw [ih (fun x hx => hd x (by simp [hx]))]
+    simp
+
+theorem digit_facts2 {c : Char} (h : c.isDigit = true) : c ≠ '_' ∧ c ≠ 'e' ∧ c ≠ 'E' ∧ c ≠ '.' := by
+  refine ⟨?_, ?_, ?_, ?_⟩ <;> (intro hh; subst hh; simp at h)
+
+theorem findIdx?_none_of_digits (ds : Str) (hd : ∀ c ∈ ds, c.isDigit = true) (p : Char → Bool) (hp : ∀ c, c.isDigit = true → p c = false) :
+    ds.findIdx? p = none := by
+  rw [List.findIdx?_eq_none_iff]
+  intro c hc
+  exact hp c (hd c hc)
+
+theorem lower_digits (ds : Str) (hd : ∀ c ∈ ds, c.isDigit = true) : ∀ c ∈ lower ds, c.isDigit = true := by
+  intro c hc
+  unfold lower at hc
+  simp only [List.mem_map] at hc
+  obtain ⟨x, hx, rfl⟩ := hc
+  have hx' := hd x hx
+  have : x.toLower = x := by
+    unfold Char.toLower
+    have : ¬ (x.val ≥ 65 ∧ x.val ≤ 90) := by
+      unfold Char.isDigit at hx'
+      simp at hx'
+      intro h
+      have h1 := hx'.2
+      have h2 := h.1
+      exact absurd (UInt32.le_trans h2 h1) (by decide)
+    simp [this]
+  rw [this]; exact hx'
+
+theorem unsignedFloat_digits (c : Char) (cs : Str) (hd : ∀ x ∈ c :: cs, x.isDigit = true) :
+    unsignedFloat (c :: cs) = .ok ((Nat.ofDigitChars 10 (c :: cs) 0 : Nat) : Rat) := by
+  have hl := lower_digits (c :: cs) hd
+  have hne : ∀ (w : Str), (∃ y ys, w = y :: ys ∧ y.isDigit = false) → (lower (c :: cs) == w) = false := by
+    intro w ⟨y, ys, hw, hy⟩
+    rw [beq_eq_false_iff_ne]
+    intro h
+    have := hl y (by rw [h, hw]; simp)
+    rw [this] at hy; cases hy
+  unfold unsignedFloat
+  have e1 := hne "inf".toList ⟨'i', ['n', 'f'], rfl, by decide⟩
+  have e2 := hne "infinity".toList ⟨'i', _, rfl, by decide⟩
+  have e3 := hne "nan".toList ⟨'n', _, rfl, by decide⟩
+  simp only [e1, e2, e3, Bool.or_self, Bool.false_eq_true, if_false]
+  have f1 : (c :: cs).findIdx? (fun c => c == 'e' || c == 'E') = none :=
+    findIdx?_none_of_digits _ hd _ (fun x hx => by have := digit_facts2 hx; simp [this.2.1, this.2.2.1])
+  have f2 : (c :: cs).findIdx? (· == '.') = none :=
+    findIdx?_none_of_digits _ hd _ (fun x hx => by have := digit_facts2 hx; simp [this.2.2.2])
+  simp only [f1, f2]
+  have hp : digitPart (c :: cs) = some (Nat.ofDigitChars 10 (c :: cs) 0, (c :: cs).length) := by
+    unfold digitPart
+    simp only
+    rw [digitPart_go_digits _ hd 0 0 false (Or.inl (by simp))]
+    simp
+  simp [hp, pow10]
+
+theorem parseFloat_digits (c : Char) (cs : Str) (hd : ∀ x ∈ c :: cs, x.isDigit = true) :
+    parseFloat (c :: cs) = .ok ((Nat.ofDigitChars 10 (c :: cs) 0 : Nat) : Rat) := by
+  unfold parseFloat
+  rw [strip_no_ws _ (fun x hx => isWs_of_digit (hd x hx))]
+  have hc := digit_facts (hd c (by simp))
+  have key : ∀ (t : Str), t = c :: cs →
+      (match t with
+        | '-' :: r => (match unsignedFloat r with | .ok q => FloatRes.ok (-q) | x => x)
+        | '+' :: r => unsignedFloat r
+        | r => unsignedFloat r) = unsignedFloat (c :: cs) := by
+    intro t ht
+    split
+    · rename_i r; cases ht; exact absurd rfl hc.2.1
+    · rename_i r; cases ht; exact absurd rfl hc.2.2.1
+    · rw [ht]
+  exact (key _ rfl).trans (unsignedFloat_digits c cs hd)
+
+/-- **every plain integer literal** (decimal digits, no leading zero unless it is the single digit) satisfies the side condition of the
+distribution theorems, with the value of its digits -/
+theorem TokOK_digits (ds : Str) (hne : ds ≠ []) (hd : ∀ c ∈ ds, c.isDigit = true) (h0 : ds.length = 1 ∨ ds.head? ≠ some '0') :
+    TokOK ds ((Nat.ofDigitChars 10 ds 0 : Nat) : Rat) := by
+  obtain ⟨c, cs, rfl⟩ := List.exists_cons_of_ne_nil hne
+  have hc := hd c (by simp)
+  have hcf := digit_facts hc
+  have hc2 := digit_facts2 hc
+  refine ⟨?_, ?_, ?_, ?_, ?_⟩
+  · unfold numberLit
+    have g1 : ((c :: cs).length > 1 && (c :: cs).all (fun c => c.isDigit || c == '_') && (c :: cs).head? == some '0' && (c :: cs).any (fun c => c != '0' && c != '_')) = false := by
+      rcases h0 with h | h
+      · have hcs : cs = [] := by simpa using h
+        subst hcs
+        simp
+      · have : ((c :: cs).head? == some '0') = false := by
+          rw [beq_eq_false_iff_ne]; exact h
+        simp only [this, Bool.and_false, Bool.false_and]
+    have g2 : ((c :: cs).head? == some '_' || (c :: cs).head? == some '+' || (c :: cs).head? == some '-') = false := by
+      simp [hc2.1, hcf.2.1, hcf.2.2.1]
+    rw [g1, g2]
+    simp only [Bool.false_eq_true, if_false]
+    rw [parseFloat_digits c cs hd]
+  · have := takeNumber_digits (c :: cs) hd ',' (by decide) (by decide) []
+    simpa using this
+  · have := takeNumber_digits (c :: cs) hd ')' (by decide) (by decide) []
+    simpa using this
+  · intro x hx; exact Or.inl (hd x hx)
+  · simp [hc]
+
+theorem toDigits_head_ne_zero (n : Nat) (hn : 0 < n) : (Nat.toDigits 10 n).head? ≠ some '0' := by
+  induction n using Nat.strongRecOn with
+  | _ n ih =>
+    rw [Nat.toDigits_eq_if (by omega)]
+    split
+    · rename_i hlt
+      have : n = 1 ∨ n = 2 ∨ n = 3 ∨ n = 4 ∨ n = 5 ∨ n = 6 ∨ n = 7 ∨ n = 8 ∨ n = 9 := by omega
+      rcases this with h | h | h | h | h | h | h | h | h <;> subst h <;> decide
+    · rename_i hge
+      have hpos : 0 < n / 10 := Nat.div_pos (by omega) (by omega)
+      have := ih (n / 10) (Nat.div_lt_self hn (by omega)) hpos
+      have hne : Nat.toDigits 10 (n / 10) ≠ [] := Nat.toDigits_ne_nil
+      obtain ⟨x, xs, hx⟩ := List.exists_cons_of_ne_nil hne
+      rw [hx] at this ⊢
+      simpa using this
+
+/-- in particular the decimal digits of every natural number -/
+theorem TokOK_nat (n : Nat) : TokOK (Nat.toDigits 10 n) (n : Rat) := by
+  have hne : Nat.toDigits 10 n ≠ [] := Nat.toDigits_ne_nil
+  have hd : ∀ c ∈ Nat.toDigits 10 n, c.isDigit = true := fun c hc => Nat.isDigit_of_mem_toDigits (by omega) (by omega) hc
+  have h0 : (Nat.toDigits 10 n).length = 1 ∨ (Nat.toDigits 10 n).head? ≠ some '0' := by
+    rcases Nat.eq_zero_or_pos n with h | h
+    · left; subst h; rfl
+    · right; exact toDigits_head_ne_zero n h
+  have := TokOK_digits _ hne hd h0
+  rwa [Nat.ofDigitChars_ten_toDigits] at this
+
 end GBS.P
